@@ -59,10 +59,13 @@ def hexagon(shape, radius, shift=(0, 0), rotate=False, antialias=True):
 
     inner_radius = radius * np.sqrt(3)/2
 
-    for n in range(6):
-    
+    # three pairs of opposite sides: testing |rho| treats the two sides of a
+    # pair identically (sin(theta) and sin(theta + pi) differ by an ulp, which
+    # decided pixels lying exactly on an edge differently on opposite sides)
+    for n in range(3):
+
         theta = n * np.pi/3 if rotate else n * np.pi/3 + np.pi/6
-        rho = r * np.sin(theta) + c * np.cos(theta)
+        rho = np.abs(r * np.sin(theta) + c * np.cos(theta))
     
         if antialias:
             slc = np.clip(inner_radius + 0.5 - rho, 0.0, 1.0)
